@@ -71,6 +71,9 @@ def single_ops(d, n_top, tier):
         out.append(("setitem_cp", {"pos": pos}))
         out.append(("setitem_coord", {"pos": pos}))
         out.append(("setitem_val", {"pos": pos}))
+    for sp in range(n_top):
+        out.append(("ref_startpos", {"s": sp}))
+        out.append(("posref_startpos", {"s": sp}))
     out.append(("extend", {"n": 1}))
     out.append(("extend", {"n": 2}))
     out.append(("range_shape_ref", {"span": 3}))
